@@ -77,6 +77,10 @@ def ensure_facts(repo=None, verbose=True):
     key = tree_key(repo)
     path = os.path.join(CACHE, "facts-%s.jsonl" % key[:24])
     if os.path.exists(path):
+        try:
+            os.utime(path, None)   # LRU: recently used facts survive the cache trim
+        except OSError:
+            pass
         return path, key
     with open(os.path.join(CACHE, "facts.lock"), "w") as lk:
         fcntl.flock(lk, fcntl.LOCK_EX)
@@ -103,7 +107,7 @@ def ensure_facts(repo=None, verbose=True):
             print("facts: rebuilt in %.1fs -> %s" % (time.time() - t0, os.path.basename(path)), file=sys.stderr)
         # keep the cache small: newest 6 facts files
         fs = sorted(glob.glob(os.path.join(CACHE, "facts-*.jsonl")), key=os.path.getmtime, reverse=True)
-        for old in fs[6:]:
+        for old in fs[10:]:
             try:
                 os.remove(old)
             except OSError:
